@@ -63,11 +63,17 @@ def run(ctx):
     exes = build(ctx)
     if getattr(ctx, "build_only", False):
         return
-    ctx.run_harness(exes["h06"], ["--part", "unsplit"], shards=16)
+    import time
+
+    def part(exe, name):
+        t = time.time()
+        ctx.run_harness(exes[exe], ["--part", name], shards=16)
+        ctx.notes.append("%s --part %s: %.1fs" % (exe, name, time.time() - t))
+    part("h06", "unsplit")
+    part("h06", "split")
     for k in KS:
-        ctx.run_harness(exes["h06fd%d" % k], ["--part", "pieces"], shards=16)
-    ctx.run_harness(exes["h06fd"], ["--part", "shortread"], shards=16)
-    ctx.run_harness(exes["h06"], ["--part", "split"], shards=16)
+        part("h06fd%d" % k, "pieces")
+    part("h06fd", "shortread")
     ctx.assume("a Decompressor never returns an empty piece before the end of the data (an empty string is the end marker of the "
                "Reader's input queue), so only segmentations into non-empty pieces are enumerated")
     ctx.assume("PBF: when a file ends inside a blob, the parser's own fd reading and its input-queue reading word the error differently "
